@@ -135,33 +135,34 @@ type interpreter struct {
 	idleWait     []*thread
 	stalled      []*thread
 
-	steps      int64
-	maxSteps   int64
-	loopCap    int
-	covers     map[string]bool
-	violations []violation
-	unknown    []string // reasons making this path inconclusive
-	cuts       []string // parts of the input space deliberately not explored on this path
-	trace      []string
-	observed   []string // observable trace (for translator validation)
-	events     []string // order of stub effects (vstub.Event) on this path
-	mutexes    map[*value]*mutexState
-	wgs        map[*value]*wgState
-	conds      map[*value]*condState
-	onces      map[*value]*onceState
-	hashes     []hashEntry
-	initDone   map[*ssa.Package]bool
-	encoded    map[string]bool // functions whose SSA body was executed on this path
-	stubsUsed  map[string]bool
-	knownOn    map[string]bool // known-finding ids enabled for this run
-	lenient    int
-	nasserts   int
-	fmtFr      *frame // frame on whose behalf the formatter calls Error methods
-	fmtDepth   int
-	allocLimit int64 // vstub.AllocLimit: symbolic allocations above it are violations
-	params     map[string]int
-	nchans     int
-	wgThreads  sync.WaitGroup
+	steps         int64
+	maxSteps      int64
+	loopCap       int
+	covers        map[string]bool
+	violations    []violation
+	unknown       []string // reasons making this path inconclusive
+	cuts          []string // parts of the input space deliberately not explored on this path
+	trace         []string
+	observed      []string // observable trace (for translator validation)
+	events        []string // order of stub effects (vstub.Event) on this path
+	mutexes       map[*value]*mutexState
+	wgs           map[*value]*wgState
+	conds         map[*value]*condState
+	onces         map[*value]*onceState
+	hashes        []hashEntry
+	initDone      map[*ssa.Package]bool
+	encoded       map[string]bool // functions whose SSA body was executed on this path
+	stubsUsed     map[string]bool
+	knownOn       map[string]bool // known-finding ids enabled for this run
+	lenient       int
+	nasserts      int
+	exploreSelect bool   // the choice among several ready select cases is a path decision
+	fmtFr         *frame // frame on whose behalf the formatter calls Error methods
+	fmtDepth      int
+	allocLimit    int64 // vstub.AllocLimit: symbolic allocations above it are violations
+	params        map[string]int
+	nchans        int
+	wgThreads     sync.WaitGroup
 }
 
 func (fr *frame) get(key ssa.Value) value {
